@@ -86,37 +86,46 @@ Definition memw_of (f : filt) (c : N) : option N :=
   end.
 Definition upd_cnt (f : filt) (bits c : N) : eff := mkE (f_cache f false c) bits (memw_of f c).
 
-(* internal_update *)
-Definition core_update (f : filt) (bits : N) (idx : list N) : option eff :=
-  if f_ro f then None
-  else Some (mkE (f_cache f true (f_cnt f)) (set_bits bits idx) None).
+(* The switch [fx] selects the REPAIRED behaviour proposed for the three defects recorded for C15 (known_findings.json):
+     fx = false  the code as it is (this is what the correspondence runs use);
+     fx = true   (A) internal_update also writes DIRTY_BITS_VALUE to the count stored in wrapped memory,
+                 (B) internal_query_and_update leaves the count alone while is_dirty_ is set,
+                 (D) union_with / intersect / invert refuse read-only filters. *)
+Section Core.
+  Variable fx : bool.
 
-(* internal_query_and_update; the count is cached/written once per hash, so nothing happens to it when num_hashes = 0 *)
-Definition core_qau (f : filt) (bits : N) (idx : list N) : option (eff * bool) :=
-  if f_ro f then None
-  else
-    let '(bits', cnt', ex) := qau_loop idx bits (f_cnt f) true in
-    match idx with
-    | [] => Some (mkE f bits None, ex)
-    | _ => Some (upd_cnt f bits' cnt', ex)
-    end.
+  (* internal_update *)
+  Definition core_update (f : filt) (bits : N) (idx : list N) : option eff :=
+    if f_ro f then None
+    else Some (mkE (f_cache f true (f_cnt f)) (set_bits bits idx) (if fx then memw_of f DIRTY else None)).
 
-(* internal_query *)
-Definition core_query (f : filt) (bits : N) (idx : list N) : bool :=
-  if is_empty f then false else all_set bits idx.
+  (* internal_query_and_update; the count is cached/written once per hash, so nothing happens to it when num_hashes = 0 *)
+  Definition core_qau (f : filt) (bits : N) (idx : list N) : option (eff * bool) :=
+    if f_ro f then None
+    else
+      let '(bits', cnt', ex) := qau_loop idx bits (f_cnt f) true in
+      match idx with
+      | [] => Some (mkE f bits None, ex)
+      | _ => if fx && f_dirty f then Some (mkE f bits' None, ex) else Some (upd_cnt f bits' cnt', ex)
+      end.
 
-(* union_with / intersect / invert: no read-only check; the count is recomputed over the whole array *)
-Definition core_union (f : filt) (bits obits : N) : eff :=
-  let b := N.lor bits obits in upd_cnt f b (popcount b).
-Definition core_intersect (f : filt) (bits obits : N) : eff :=
-  let b := N.land bits obits in upd_cnt f b (popcount b).
-Definition core_invert (f : filt) (bits : N) : eff :=
-  let b := N.lxor bits (N.ones (f_cap f)) in upd_cnt f b (popcount b).
-Definition core_reset (f : filt) : option eff :=
-  if f_ro f then None else Some (upd_cnt f 0 0).
-(* get_bits_used: recount when dirty; never written through to memory *)
-Definition core_bits_used (f : filt) (bits : N) : filt :=
-  if f_dirty f then f_cache f false (popcount bits) else f.
+  (* internal_query *)
+  Definition core_query (f : filt) (bits : N) (idx : list N) : bool :=
+    if is_empty f then false else all_set bits idx.
+
+  (* union_with / intersect / invert: no read-only check in the code as it is; the count is recomputed over the whole array *)
+  Definition core_union (f : filt) (bits obits : N) : option eff :=
+    if fx && f_ro f then None else let b := N.lor bits obits in Some (upd_cnt f b (popcount b)).
+  Definition core_intersect (f : filt) (bits obits : N) : option eff :=
+    if fx && f_ro f then None else let b := N.land bits obits in Some (upd_cnt f b (popcount b)).
+  Definition core_invert (f : filt) (bits : N) : option eff :=
+    if fx && f_ro f then None else let b := N.lxor bits (N.ones (f_cap f)) in Some (upd_cnt f b (popcount b)).
+  Definition core_reset (f : filt) : option eff :=
+    if f_ro f then None else Some (upd_cnt f 0 0).
+  (* get_bits_used: recount when dirty; never written through to memory *)
+  Definition core_bits_used (f : filt) (bits : N) : filt :=
+    if f_dirty f then f_cache f false (popcount bits) else f.
+End Core.
 
 (* ------------------------------------------------------------------ *)
 (* serialized image                                                     *)
@@ -181,6 +190,26 @@ Definition parse (d : list N) (read_only wrap stream : bool) : parsed :=
   if negb wrap && Nat.ltb (len - 32) nbytes then PRefuse else
   PFull (round_cap (w32 (N.shiftl nlongs 6))) nh seed nbs nbytes.
 
+(* deserialize(bytes) / deserialize(istream): an owned filter with a copy of the bit array *)
+Definition deser_filt (d : list N) (stream : bool) : option filt :=
+  match parse d false false stream with
+  | PRefuse => None
+  | PEmpty nbits nh seed => new_owned nbits nh seed
+  | PFull cap nh seed nbs nbytes => Some (mkF seed nh cap (N.eqb nbs DIRTY) false nbs None (rd d 32 nbytes))
+  end.
+
+(* wrap / writable_wrap of buffer register b: a view (or, for an empty image, a fresh owned filter).
+   Private constructor: a read-only wrap of a dirty image recounts (is_dirty_ stays set). *)
+Definition wrap_filt (d : list N) (b : Z) (writable : bool) : option filt :=
+  match parse d (negb writable) true false with
+  | PRefuse => None
+  | PEmpty nbits nh seed => new_owned nbits nh seed
+  | PFull cap nh seed nbs nbytes =>
+      let ro := negb writable in
+      let cnt := if ro && N.eqb nbs DIRTY then popcount (rd d 32 (cap_bytes cap)) else nbs in
+      Some (mkF seed nh cap (N.eqb nbs DIRTY) ro cnt (Some b) 0)
+  end.
+
 (* ------------------------------------------------------------------ *)
 (* items: the bytes that are hashed, per overload                       *)
 (* ------------------------------------------------------------------ *)
@@ -239,8 +268,13 @@ Definition mem_item (x : item) (l : list item) : bool := existsb (item_eqb x) l.
 (* the world: filter registers and buffer registers, with ghost state   *)
 (* ------------------------------------------------------------------ *)
 
-Record fent := mkFE { e_f : filt; e_must : list item; e_epoch : Z; e_haz : Z }.
-Record bent := mkBE { b_data : list N; b_must : list item; b_epoch : Z; b_haz : Z }.
+(* e_epoch / b_epoch: bumped by every destructive event on the buffer (the claims of the other views become void);
+   e_gen / b_gen: bumped when the IMAGE in the buffer is replaced (initialize, serialize into it): older views are then
+   detached for good (their cached seed/hashes/capacity need not match the header any more) *)
+(* e_seen / b_mut: b_mut counts the writes to the buffer through any view; a view is CURRENT (its cached count reflects
+   the shared bit array) while e_seen = b_mut.  Insertions through a view that is not current are not claimed. *)
+Record fent := mkFE { e_f : filt; e_must : list item; e_epoch : Z; e_haz : Z; e_gen : Z; e_seen : Z }.
+Record bent := mkBE { b_data : list N; b_must : list item; b_epoch : Z; b_haz : Z; b_gen : Z; b_mut : Z }.
 Record world := mkW { w_f : list (Z * fent); w_b : list (Z * bent) }.
 
 Inductive wop :=
@@ -285,7 +319,7 @@ Definition commit (w : world) (e : eff) : filt * list (Z * bent) :=
       | Some be =>
           let d := wr (b_data be) 32 (cap_bytes (f_cap f)) (x_bits e) in
           let d := match x_memw e with Some c => wr d 24 8 c | None => d end in
-          (f, reg_set (w_b w) b (mkBE d (b_must be) (b_epoch be) (b_haz be)))
+          (f, reg_set (w_b w) b (mkBE d (b_must be) (b_epoch be) (b_haz be) (b_gen be) (b_mut be)))
       | None => (f, w_b w)
       end
   end.
@@ -313,32 +347,52 @@ Definition hmax (a b : Z) : Z := if a =? 0 then b else a.
 Definition buf_upd (bs : list (Z * bent)) (b : Z) (g : bent -> bent) : list (Z * bent) :=
   match reg_get bs b with Some be => reg_set bs b (g be) | None => bs end.
 
-(* ghost update after a MONOTONE write (update / query_and_update / union) through filter register r:
+Definition buf_gen (bs : list (Z * bent)) (b : Z) : Z :=
+  match reg_get bs b with Some be => b_gen be | None => 0 end.
+Definition buf_mut (bs : list (Z * bent)) (b : Z) : Z :=
+  match reg_get bs b with Some be => b_mut be | None => 0 end.
+
+(* ghost update after a MONOTONE write (update / query_and_update / union) through a filter:
    [add] = items that are now claimed, [code] = hazard code if the count information became inconsistent,
-   [hz] = hazard inherited from the operand of a union *)
-Definition ghost_grow (bs : list (Z * bent)) (fe : fent) (f' : filt) (add : list item) (code hz : Z) : fent * list (Z * bent) :=
+   [hz] = hazard inherited from the operand of a union, [recount] = the operation recomputed the count over the whole
+   array (union), which makes the view current again.
+   A write through a DETACHED view (the image in the buffer was replaced behind it) scribbles on somebody else's image:
+   every claim on the buffer is dropped. *)
+Definition ghost_grow (bs : list (Z * bent)) (fe : fent) (f' : filt) (add : list item) (code hz : Z) (recount : bool)
+  : fent * list (Z * bent) :=
   let w' := mkW [] bs in
   let bits := bits_of w' f' in
-  let must := emust bs fe ++ add in
   let fhaz := flag (hmax (e_haz fe) hz) code (incons_f f' bits) in
   match f_mem f' with
-  | None => (mkFE f' must 0 fhaz, bs)
+  | None => (mkFE f' (e_must fe ++ add) 0 fhaz 0 0, bs)
   | Some b =>
-      (mkFE f' must (buf_epoch bs b) fhaz,
-       buf_upd bs b (fun be => mkBE (b_data be) (b_must be ++ add) (b_epoch be)
-                                    (flag (hmax (b_haz be) hz) code (incons_b be bits))))
+      let current := (e_seen fe =? buf_mut bs b) || recount in
+      let add' := if current then add else [] in
+      let must := emust bs fe ++ add' in
+      let mut' := buf_mut bs b + 1 in
+      let seen' := if current then mut' else e_seen fe in
+      if e_gen fe =? buf_gen bs b then
+        (mkFE f' must (buf_epoch bs b) fhaz (e_gen fe) seen',
+         buf_upd bs b (fun be => mkBE (b_data be) (b_must be ++ add') (b_epoch be)
+                                      (flag (hmax (b_haz be) hz) code (incons_b be bits)) (b_gen be) mut'))
+      else
+        (mkFE f' must (buf_epoch bs b + 1) fhaz (e_gen fe) seen',
+         buf_upd bs b (fun be => mkBE (b_data be) [] (b_epoch be + 1) 0 (b_gen be) mut'))
   end.
 
-(* ghost update after a DESTRUCTIVE write (intersect / invert / reset): all claims on the state are dropped *)
+(* ghost update after a DESTRUCTIVE write (intersect / invert / reset): all claims on the state are dropped;
+   these operations recompute the count, the view is current afterwards *)
 Definition ghost_clear (bs : list (Z * bent)) (fe : fent) (f' : filt) (code : Z) : fent * list (Z * bent) :=
   let w' := mkW [] bs in
   let bits := bits_of w' f' in
   match f_mem f' with
-  | None => (mkFE f' [] 0 0, bs)
+  | None => (mkFE f' [] 0 0 0 0, bs)
   | Some b =>
       let ep := buf_epoch bs b + 1 in
-      (mkFE f' [] ep 0,
-       buf_upd bs b (fun be => mkBE (b_data be) [] ep (flag 0 code (incons_b be bits))))
+      let mut' := buf_mut bs b + 1 in
+      (mkFE f' [] ep 0 (e_gen fe) mut',
+       buf_upd bs b (fun be => mkBE (b_data be) [] ep
+                                    (if e_gen fe =? b_gen be then flag 0 code (incons_b be bits) else 0) (b_gen be) mut'))
   end.
 
 (* ------------------------------------------------------------------ *)
@@ -346,6 +400,7 @@ Definition ghost_clear (bs : list (Z * bent)) (fe : fent) (f' : filt) (code : Z)
 (* ------------------------------------------------------------------ *)
 
 Section WithHash.
+  Variable fx : bool.                        (* false: the code as it is; true: with the three proposed repairs *)
   Variable H : list N -> N -> N.             (* ANY hash function: h0 = H item seed, h1 = H item h0 *)
 
   Definition indices_of (f : filt) (x : item) : list N :=
@@ -354,20 +409,31 @@ Section WithHash.
     bf_indices (f_cap f) (f_nh f) h0 h1.
 
   Definition rfs : outline := (refused, []).
+  Definition is_view (f : filt) : bool := match f_mem f with Some _ => true | None => false end.
 
+  (* a successful monotone / destructive write through register r *)
+  Definition fin_grow (w : world) (r : Z) (fe : fent) (e : eff) (add : list item) (code hz : Z) (recount : bool)
+             (out : outline) : world * outline :=
+    let '(f', bs') := commit w e in
+    let '(fe', bs'') := ghost_grow bs' fe f' add code hz recount in
+    (mkW (reg_set (w_f w) r fe') bs'', out).
+  Definition fin_clear (w : world) (r : Z) (fe : fent) (e : eff) (out : outline) : world * outline :=
+    let '(f', bs') := commit w e in
+    let '(fe', bs'') := ghost_clear bs' fe f' 3 in
+    (mkW (reg_set (w_f w) r fe') bs'', out).
 
   Definition wstep (w : world) (op : wop) : world * outline :=
     let fs := w_f w in let bs := w_b w in
     match op with
     | ONew r nbits nh seed =>
         match new_owned nbits nh seed with
-        | Some f => (mkW (reg_set fs r (mkFE f [] 0 0)) bs, (ok, []))
+        | Some f => (mkW (reg_set fs r (mkFE f [] 0 0 0 0)) bs, (ok, []))
         | None => (w, rfs)
         end
     | ONewBuf b len =>
         match reg_get bs b with
         | Some _ => (w, rfs)
-        | None => (mkW fs (reg_set bs b (mkBE (repeat 0%N (N.to_nat len)) [] 0 0)), (ok, []))
+        | None => (mkW fs (reg_set bs b (mkBE (repeat 0%N (N.to_nat len)) [] 0 0 0 0)), (ok, []))
         end
     | OInit r b nbits nh seed =>
         match reg_get bs b with
@@ -376,8 +442,9 @@ Section WithHash.
               let cap := round_cap nbits in
               let ep := b_epoch be + 1 in
               let f := mkF seed nh cap false false 0 (Some b) 0 in
-              (mkW (reg_set fs r (mkFE f [] ep 0))
-                   (reg_set bs b (mkBE (overlay (init_image seed nh cap) (b_data be)) [] ep 0)), (ok, []))
+              (mkW (reg_set fs r (mkFE f [] ep 0 (b_gen be + 1) (b_mut be + 1)))
+                   (reg_set bs b (mkBE (overlay (init_image seed nh cap) (b_data be)) [] ep 0 (b_gen be + 1) (b_mut be + 1))),
+               (ok, []))
             else (w, rfs)
         | None => (w, rfs)
         end
@@ -388,11 +455,8 @@ Section WithHash.
             match x with
             | [] => (w, (ok, [0]))                      (* empty string / zero-length block: ignored before any check *)
             | _ =>
-              match core_update f (bits_of w f) (indices_of f x) with
-              | Some e =>
-                  let '(f', bs') := commit w e in
-                  let '(fe', bs'') := ghost_grow bs' fe f' [x] 1 0 in
-                  (mkW (reg_set fs r fe') bs'', (ok, [bz (f_ro f)]))
+              match core_update fx f (bits_of w f) (indices_of f x) with
+              | Some e => fin_grow w r fe e [x] 1 0 false (ok, [bz (f_ro f)])
               | None => (w, (refused, [bz (f_ro f)]))
               end
             end
@@ -421,12 +485,10 @@ Section WithHash.
             | _ =>
               let bits := bits_of w f in
               let idx := indices_of f x in
-              match core_qau f bits idx with
+              match core_qau fx f bits idx with
               | Some (e, ex) =>
-                  let '(f', bs') := commit w e in
-                  let '(fe', bs'') := ghost_grow bs' fe f' [x] 2 0 in
-                  (mkW (reg_set fs r fe') bs'',
-                   ([bz ex], [bz (f_ro f); bz (all_set bits idx); bz (mem_item x (emust bs fe)); e_haz fe]))
+                  fin_grow w r fe e [x] 2 0 false
+                    ([bz ex], [bz (f_ro f); bz (all_set bits idx); bz (mem_item x (emust bs fe)); e_haz fe])
               | None => (w, (refused, [bz (f_ro f); 0; 0; 0]))
               end
             end
@@ -437,10 +499,10 @@ Section WithHash.
         | Some fe, Some ge =>
             let f := e_f fe in let g := e_f ge in
             if compatible f g then
-              let e := core_union f (bits_of w f) (bits_of w g) in
-              let '(f', bs') := commit w e in
-              let '(fe', bs'') := ghost_grow bs' fe f' (emust bs ge) 3 (e_haz ge) in
-              (mkW (reg_set fs r fe') bs'', (ok, [bz (f_ro f); 0]))
+              match core_union fx f (bits_of w f) (bits_of w g) with
+              | Some e => fin_grow w r fe e (emust bs ge) 3 (e_haz ge) true (ok, [bz (f_ro f); 0])
+              | None => (w, (refused, [bz (f_ro f); 0]))
+              end
             else (w, (refused, [bz (f_ro f); 1]))
         | _, _ => (w, rfs)
         end
@@ -449,10 +511,10 @@ Section WithHash.
         | Some fe, Some ge =>
             let f := e_f fe in let g := e_f ge in
             if compatible f g then
-              let e := core_intersect f (bits_of w f) (bits_of w g) in
-              let '(f', bs') := commit w e in
-              let '(fe', bs'') := ghost_clear bs' fe f' 3 in
-              (mkW (reg_set fs r fe') bs'', (ok, [bz (f_ro f); 0]))
+              match core_intersect fx f (bits_of w f) (bits_of w g) with
+              | Some e => fin_clear w r fe e (ok, [bz (f_ro f); 0])
+              | None => (w, (refused, [bz (f_ro f); 0]))
+              end
             else (w, (refused, [bz (f_ro f); 1]))
         | _, _ => (w, rfs)
         end
@@ -460,10 +522,10 @@ Section WithHash.
         match reg_get fs r with
         | Some fe =>
             let f := e_f fe in
-            let e := core_invert f (bits_of w f) in
-            let '(f', bs') := commit w e in
-            let '(fe', bs'') := ghost_clear bs' fe f' 3 in
-            (mkW (reg_set fs r fe') bs'', (ok, [bz (f_ro f); 0]))
+            match core_invert fx f (bits_of w f) with
+            | Some e => fin_clear w r fe e (ok, [bz (f_ro f); 0])
+            | None => (w, (refused, [bz (f_ro f); 0]))
+            end
         | None => (w, rfs)
         end
     | OReset r =>
@@ -471,10 +533,7 @@ Section WithHash.
         | Some fe =>
             let f := e_f fe in
             match core_reset f with
-            | Some e =>
-                let '(f', bs') := commit w e in
-                let '(fe', bs'') := ghost_clear bs' fe f' 3 in
-                (mkW (reg_set fs r fe') bs'', (ok, [bz (f_ro f); 0]))
+            | Some e => fin_clear w r fe e (ok, [bz (f_ro f); 0])
             | None => (w, (refused, [bz (f_ro f); 0]))
             end
         | None => (w, rfs)
@@ -485,7 +544,11 @@ Section WithHash.
             let f := e_f fe in
             let bits := bits_of w f in
             let f' := core_bits_used f bits in
-            (mkW (reg_set fs r (mkFE f' (e_must fe) (e_epoch fe) (e_haz fe))) bs,
+            let seen' := match f_mem f with
+                         | Some b => if f_dirty f then buf_mut bs b else e_seen fe
+                         | None => e_seen fe
+                         end in
+            (mkW (reg_set fs r (mkFE f' (e_must fe) (e_epoch fe) (e_haz fe) (e_gen fe) seen')) bs,
              ([Nz (f_cnt f')], [Nz (popcount bits)]))
         | None => (w, rfs)
         end
@@ -494,9 +557,7 @@ Section WithHash.
         | Some fe =>
             let f := e_f fe in
             (w, ([Nz (f_cap f); Nz (f_nh f); Nz (f_seed f); bz (is_empty f); bz (f_ro f);
-                  bz (match f_mem f with Some _ => true | None => false end);
-                  bz (match f_mem f with Some _ => false | None => true end);
-                  nz (length (serialize f 0))], []))
+                  bz (is_view f); bz (negb (is_view f)); nz (length (serialize f 0))], []))
         | None => (w, rfs)
         end
     | ODump r =>
@@ -510,42 +571,29 @@ Section WithHash.
             let f := e_f fe in
             let img := serialize f (bits_of w f) in
             if Nat.ltb (length (b_data be)) (length img) then (w, rfs)
-            else (mkW fs (reg_set bs b (mkBE (overlay img (b_data be)) (emust bs fe) (b_epoch be + 1) (e_haz fe))),
+            else (mkW fs (reg_set bs b (mkBE (overlay img (b_data be)) (emust bs fe) (b_epoch be + 1) (e_haz fe)
+                                             (b_gen be + 1) (b_mut be + 1))),
                   ([nz (length img)], []))
         | _, _ => (w, rfs)
         end
     | ODeser r b stream =>
         match reg_get bs b with
         | Some be =>
-            match parse (b_data be) false false stream with
-            | PRefuse => (w, rfs)
-            | PEmpty nbits nh seed =>
-                match new_owned nbits nh seed with
-                | Some f => (mkW (reg_set fs r (mkFE f (b_must be) 0 (b_haz be))) bs, (ok, []))
-                | None => (w, rfs)
-                end
-            | PFull cap nh seed nbs nbytes =>
-                let f := mkF seed nh cap (N.eqb nbs DIRTY) false nbs None (rd (b_data be) 32 nbytes) in
-                (mkW (reg_set fs r (mkFE f (b_must be) 0 (b_haz be))) bs, (ok, []))
+            match deser_filt (b_data be) stream with
+            | Some f => (mkW (reg_set fs r (mkFE f (b_must be) 0 (b_haz be) 0 0)) bs, (ok, []))
+            | None => (w, rfs)
             end
         | None => (w, rfs)
         end
     | OWrap r b writable =>
         match reg_get bs b with
         | Some be =>
-            match parse (b_data be) (negb writable) true false with
-            | PRefuse => (w, rfs)
-            | PEmpty nbits nh seed =>
-                match new_owned nbits nh seed with
-                | Some f => (mkW (reg_set fs r (mkFE f (b_must be) 0 (b_haz be))) bs, (ok, []))
-                | None => (w, rfs)
-                end
-            | PFull cap nh seed nbs nbytes =>
-                let ro := negb writable in
-                (* private constructor: a read-only wrap of a dirty image recounts (is_dirty_ stays set) *)
-                let cnt := if ro && N.eqb nbs DIRTY then popcount (rd (b_data be) 32 (cap_bytes cap)) else nbs in
-                let f := mkF seed nh cap (N.eqb nbs DIRTY) ro cnt (Some b) 0 in
-                (mkW (reg_set fs r (mkFE f (b_must be) (b_epoch be) (b_haz be))) bs, (ok, []))
+            match wrap_filt (b_data be) b writable with
+            | Some f =>
+                if is_view f
+                then (mkW (reg_set fs r (mkFE f (b_must be) (b_epoch be) (b_haz be) (b_gen be) (b_mut be))) bs, (ok, []))
+                else (mkW (reg_set fs r (mkFE f (b_must be) 0 (b_haz be) 0 0)) bs, (ok, []))
+            | None => (w, rfs)
             end
         | None => (w, rfs)
         end
@@ -605,6 +653,9 @@ Definition decode (o e : line) : wop :=
   | _ => OBad
   end.
 
-Definition step (w : world) (o e : line) : world * outline := wstep xxh64 w (decode o e).
-
+Definition step (w : world) (o e : line) : world * outline := wstep false xxh64 w (decode o e).
 Definition run (ops : list opline) : list outline := run_case step (mkW [] []) ops.
+
+(* the same protocol over the REPAIRED model; to be used for the correspondence once the repairs are applied to the code *)
+Definition step_fixed (w : world) (o e : line) : world * outline := wstep true xxh64 w (decode o e).
+Definition run_fixed (ops : list opline) : list outline := run_case step_fixed (mkW [] []) ops.
